@@ -1077,3 +1077,105 @@ def exhaustive_loop(P, fn_qual, allow_exits=0):
                           'in `%s` the loop at %s can be left before the iterator is exhausted (edge at %s): the remaining elements are not processed'
                           % (fn['qual'], body.ln(h), body.ln(b)), where=[body.ln(b), body.ln(h)])
     return r
+
+
+# ------------------------------------------------------------------------------ structural inventories per source file
+_IDENT = re.compile(r'(?<![\w.:#])(?!const\b)([a-z_][a-z0-9_]*)(?=[.,)\s\]}]|$)')
+
+
+def normalise_operand(s):
+    """abstract local / parameter names, keep field names, callee names and constants"""
+    s = re.sub(r'\{closure:\{closure#\d+\}\}', '{closure}', s)
+    s = re.sub(r'(?<![\w.])_\d+\b', '_', s)
+    s = _IDENT.sub('_', s)
+    s = re.sub(r'promoted\[\d+\]', 'promoted', s)
+    if len(s) > 170:
+        s = s[:100] + '~' + s[-60:]
+    return s
+
+
+def fns_in_files(P, files):
+    fs = tuple(files)
+    out = []
+    for fn in P.fns.values():
+        loc = fn['loc'].rsplit(':', 1)[0]
+        if loc in fs:
+            out.append(fn)
+    return out
+
+
+def condition_inventory(P, files):
+    """{owner fn qual: {normalised condition: count}} for every two-way branch on a comparison / bool in the functions
+    (and their closures) defined in `files`"""
+    out = {}
+    for fn in fns_in_files(P, files):
+        if fn.get('mac'):
+            continue
+        body = P.body(fn)
+        gx = None
+        for bi, b in enumerate(body.B):
+            t = b['term']
+            if b.get('cu') or t['k'] != 'switch' or t['d']['k'] not in ('copy', 'move') or t['d']['pl']['p']:
+                continue
+            l = t['d']['pl']['l']
+            if body.fn['locals'][l]['ty'] != 'bool' or len(t['ts']) != 1:
+                continue
+            if gx is None:
+                gx = GuardExtractor(body)
+            rel = gx.cond_of_local(l)
+            if rel[0] in ('truth', 'not'):
+                txt = normalise_operand(rel[1])
+                if txt in ('_', '{_|_}', 'const 0', 'const 1') or re.fullmatch(r'[{}|_ const01]+', txt):
+                    continue        # drop flags / desugared `&&`/`||` temporaries
+                key = ('' if rel[0] == 'truth' else '!') + txt
+                key = key.replace('!Not::not(', '(').replace('Not::not(', '!(') if key.startswith(('!Not::not(', 'Not::not(')) else key
+            else:
+                a, c = normalise_operand(rel[1]), normalise_operand(rel[2])
+                r_ = rel[0]
+                # canonical operand order; `a < b` == `b > a`; polarity is not part of the key (which side is taken is)
+                if r_ in ('>', '>='):
+                    a, c = c, a
+                    r_ = {'>': '<', '>=': '<='}[r_]
+                if r_ in ('==', '!=') and c < a:
+                    a, c = c, a
+                key = '%s %s %s' % (a, r_, c)
+            oq = owner_qual(P, fn)
+            out.setdefault(oq, {})
+            out[oq][key] = out[oq].get(key, 0) + 1
+    return out
+
+
+STD_MUTATORS = re.compile(r'^(Vec|VecDeque|HashMap|BTreeMap|HashSet|BTreeSet|SmallMap|LargeMap|Option|\[T\])::'
+                          r'(resize|truncate|clear|push|push_back|pop_front|pop|insert|remove|remove_entry|retain|extend|take|replace|sort|dedup|drain)$')
+
+
+def mustpass_inventory(P, files):
+    """{fn qual: sorted callees that lie on EVERY success path of the function}; callees = functions of the workspace crates
+    and std collection mutators"""
+    out = {}
+    for fn in fns_in_files(P, files):
+        if fn.get('mac') or fn['kind'] == 'Closure':
+            continue
+        body = P.body(fn)
+        by_callee = collections.defaultdict(list)
+        for bi, t in body.calls():
+            cn = callee_name(t)
+            c = t.get('callee') or {}
+            local = (c.get('res') or {}).get('local') or c.get('local')
+            tr = (c.get('trait') or {}).get('trait', '')
+            if local or tr.startswith('mls_rs') or STD_MUTATORS.search(cn):
+                if re.search(r'(Clone::clone|fmt::|Default::default|::deref(_mut)?$|::from$|::into$|::as_ref$|::borrow)', cn):
+                    continue
+                by_callee[cn].append(bi)
+        if not by_callee:
+            continue
+        errs = set(body.err_blocks)
+        must = []
+        for cn, blocks in by_callee.items():
+            barriers = set(body.term(b)['t'] for b in blocks if body.term(b)['t'] >= 0)
+            reach = body.reach([0], barriers | errs)
+            if not any(body.term(x)['k'] == 'return' for x in reach):
+                must.append(cn)
+        if must:
+            out[fn['qual']] = sorted(must)
+    return out
